@@ -77,8 +77,10 @@ func workerMain(args []string) {
 	nsites := fs.Int("nsites", 0, "")
 	racelog := fs.String("racelog", "", "")
 	variant := fs.String("variant", "", "")
+	tier := fs.String("tier", "quick", "")
 	fs.Parse(args)
 	setupProcess(*nsites, *racelog)
+	tierThorough = *tier == "thorough"
 	ph := findPhase(*prop, *phase)
 	if ph == nil {
 		die("no phase %s/%s", *prop, *phase)
@@ -257,8 +259,10 @@ func genMain(args []string) {
 	stride := fs.Int("stride", 1, "")
 	variant := fs.String("variant", "", "")
 	nsites := fs.Int("nsites", 0, "")
+	tier := fs.String("tier", "quick", "")
 	fs.Parse(args)
 	setupProcess(*nsites, "")
+	tierThorough = *tier == "thorough"
 	ph := findPhase(*prop, *phase)
 	if ph == nil {
 		die("no phase")
